@@ -59,11 +59,11 @@ def walk (timeAt : Nat → Option Int64) (oldTailH storeH : Nat) (expected : Int
 
 /-- the downward walk of `findTailHeight`: from the estimate downwards while the header BELOW is still
     inside the window (its time is not before the expected tail time), never below the old tail and only where
-    the store has headers (`h ≤ storeH`) -/
+    the store has the header below (`h - 1 ≤ storeH`) -/
 def walkDown (timeAt : Nat → Option Int64) (oldTailH storeH : Nat) (expected : Int64) : Nat → Nat → Option Nat
   | 0, h => some h
   | fuel+1, h =>
-    if h > oldTailH ∧ h ≤ storeH then
+    if h > oldTailH ∧ h - 1 ≤ storeH then
       match timeAt (h - 1) with
       | none => none                               -- store.GetByHeight failed
       | some t => if t < expected then some h else walkDown timeAt oldTailH storeH expected fuel (h - 1)
